@@ -246,8 +246,18 @@ func (c *Check) attrIteration(ruleS, ruleD string) {
 		}
 		return false
 	}
+	// the flags octet itself: any non-arithmetic term of type PathAttrFlags
+	// is assumed to have bit 4 as the case says (every way of testing the bit
+	// then evaluates exactly)
+	bit4 := map[bool]ISet{true: isEmpty(), false: isEmpty()}
+	for x := int64(0); x < 256; x++ {
+		bit4[x&16 != 0] = bit4[x&16 != 0].Union(isConst(x))
+	}
 	extHook := func(v bool) func(e *Expr) (ISet, bool) {
 		return func(e *Expr) (ISet, bool) {
+			if e.Op != "bin" && e.Typ != nil && typeKey(e.Typ) == "PathAttrFlags" {
+				return bit4[v], true
+			}
 			if isExt(e) {
 				op, _, _, _ := cmpOf(e)
 				return isConst(b2i((op == "!=") == v)), true
